@@ -54,8 +54,9 @@ type world struct {
 	m     *Model
 	nIPs  int
 	exts  []string // every external address ever learned
-	seq   int
-	focus string // "C02" or "C03": which statements are asserted
+	seq    int
+	focus  string // "C02" or "C03": which statements are asserted
+	silent bool   // no per-event log/op (port-space scenario: tens of thousands of events)
 }
 
 func (w *world) payload() []byte {
@@ -74,7 +75,9 @@ func (w *world) outbound(in, rem *net.UDPAddr) {
 	var err error
 	ev.NoPanic(t, "translateOutbound", func() { to, err = w.nat.Outbound(ch) })
 	mp, liveness := m.Lookup(in, rem, now)
-	w.c.Op("out %s>%s", in, rem)
+	if !w.silent {
+		w.c.Op("out %s>%s", in, rem)
+	}
 	if err != nil || to == nil {
 		t.Logf("t=%v outbound %s -> %s : error %v", now, in, rem, err)
 		w.c.Label("outbound/error")
@@ -86,7 +89,9 @@ func (w *world) outbound(in, rem *net.UDPAddr) {
 	}
 	ext := to.SourceAddr().String()
 	extAddr := udp(ext)
-	t.Logf("t=%v outbound %s -> %s : external %s", now, in, rem, ext)
+	if !w.silent {
+		t.Logf("t=%v outbound %s -> %s : external %s", now, in, rem, ext)
+	}
 	// translated datagram: destination and payload untouched
 	if to.DestinationAddr().String() != rem.String() {
 		t.Fatalf("C02: outbound translation changed the destination %s to %s", rem, to.DestinationAddr())
@@ -126,14 +131,16 @@ func (w *world) outbound(in, rem *net.UDPAddr) {
 		m.Refresh(mp, rem, now)
 	default:
 		// a new mapping: must not collide with any other live mapping
-		if l, clash := m.LiveExts(now, mp)[ext]; clash && l == 1 {
+		if m.Holder(ext, now, mp) == 1 {
 			t.Fatalf("C02: new mapping for %s -> %s got external %s which a different live mapping already holds", in, rem, ext)
 		}
 		if mp != nil {
 			w.c.Label("mapping/recreated-after-expiry")
 		}
 		m.Create(in, rem, ext, now)
-		w.exts = append(w.exts, ext)
+		if !w.silent {
+			w.exts = append(w.exts, ext)
+		}
 		w.c.Label("mapping/new")
 	}
 }
@@ -150,7 +157,9 @@ func (w *world) inbound(rem *net.UDPAddr, ext string, why string) {
 	ev.NoPanic(t, "translateInbound", func() { to, err = w.nat.Inbound(ch) })
 	verdict, internal, reason := m.Inbound(rem, ext, now)
 	forwarded := err == nil && to != nil
-	w.c.Op("in %s>%s(%s)", rem, ext, why)
+	if !w.silent {
+		w.c.Op("in %s>%s(%s)", rem, ext, why)
+	}
 	t.Logf("t=%v inbound %s -> %s (%s): forwarded=%v err=%v ; model: %d %s %s", now, rem, ext, why, forwarded, err, verdict, internal, reason)
 	w.c.Label("inbound/" + why)
 	switch verdict {
@@ -409,13 +418,18 @@ func TestC03OneToOne(t *testing.T) {
 
 // ---- port space -------------------------------------------------------------
 
-const rulePortSpace = "port-space scenario: a symmetric NAT (address-and-port dependent mapping), one internal endpoint, 16380..16400 distinct remotes, with the clock advanced past the lifetime after a drawn prefix (so that early mappings expire) or not at all; oracle as in C02: every external address handed out is valid (router IP, port 1..65535) and differs from every live mapping's; a translation error hands out nothing and is not flagged here (the end-to-end check decides whether the router keeps forwarding); non-trivial = more mappings requested than there are ports in the dynamic range; distinct by hash of the parameters"
+const rulePortSpace = "port-space scenario run through the full mapping model: a symmetric NAT (address-and-port dependent mapping and filtering), one internal endpoint, a first phase of 1..16390 distinct remotes, optionally the clock advanced past the lifetime (all of them expire), a second phase so that more than 16380 mappings have been requested (the port counter wraps and ports of expired mappings are inherited), then 0..40 endpoints of the first phase send again, then up to 300 inbound probes from the remotes of mappings the model knows to be live; oracle as in C02/C03: every external address is valid and differs from every live mapping's, a live mapping keeps its address, and a live mapping still admits its remote to its owner; a translation error for a new mapping hands out nothing and is not flagged; non-trivial = more mappings requested than there are ports in the dynamic range; distinct by hash of the parameters"
 
 func TestC02PortSpace(t *testing.T) {
 	r := ev.New("C02", "port-space", rulePortSpace)
 	r.Check(t, func(t *rapid.T, c *ev.Case) {
-		total := rapid.IntRange(16380, 16400).Draw(t, "total")
-		expireAfter := rapid.SampledFrom([]int{0, 1, 10, 5000, 16383, 16384}).Draw(t, "expireAfter")
+		n1 := rapid.SampledFrom([]int{1, 10, 5000, 16383, 16384, 16390}).Draw(t, "phase1")
+		expire := rapid.Bool().Draw(t, "expire")
+		n2 := rapid.SampledFrom([]int{0, 20, 400, 16390}).Draw(t, "phase2")
+		if n1+n2 < 16380 {
+			n2 = 16400 - n1
+		}
+		again := rapid.IntRange(0, 40).Draw(t, "again")
 		life := 30 * time.Second
 		clock := vclock.New(time.Date(2031, 5, 5, 0, 0, 0, 0, time.UTC))
 		vnet.VerifSetHooks(&vnet.VerifHooks{Now: clock.Now})
@@ -424,45 +438,47 @@ func TestC02PortSpace(t *testing.T) {
 		if err != nil {
 			t.Fatalf("newNAT: %v", err)
 		}
-		c.Set("total", total)
-		c.Set("expireAfter", expireAfter)
+		w := &world{t: t, c: c, clock: clock, nat: nat, m: NewModel(2, 2, life), nIPs: 1, focus: "C02"}
+		c.Set("phase1", n1)
+		c.Set("expire", expire)
+		c.Set("phase2", n2)
+		c.Set("again", again)
 		c.NonTrivial()
-		type rec struct {
-			ext string
-			at  time.Duration
-		}
-		var made []rec
-		liveByExt := map[string]int{}
-		errors := 0
 		in := internals[0]
-		for i := 0; i < total; i++ {
-			if expireAfter > 0 && i == expireAfter {
-				clock.Advance(life + time.Second)
-				liveByExt = map[string]int{} // everything before is expired
-				c.Label("expired-prefix")
-			}
-			rem := &net.UDPAddr{IP: net.IPv4(5, 6, byte(i>>8), byte(i)), Port: 1000 + i%50000}
-			to, err := nat.Outbound(vnet.VerifNewChunkUDP(in, rem, []byte("x")))
-			if err != nil || to == nil {
-				errors++
-				continue
-			}
-			ext := to.SourceAddr().String()
-			a := udp(ext)
-			if !a.IP.Equal(routerIPs[0]) || a.Port < 1 || a.Port > 65535 {
-				t.Fatalf("C02: mapping #%d got the invalid external address %s", i+1, ext)
-			}
-			if j, clash := liveByExt[ext]; clash {
-				t.Fatalf("C02: mapping #%d got external %s which live mapping #%d holds", i+1, ext, j+1)
-			}
-			liveByExt[ext] = i
-			made = append(made, rec{ext, clock.Offset()})
+		rem := func(i int) *net.UDPAddr {
+			return &net.UDPAddr{IP: net.IPv4(5, 6, byte(i>>8), byte(i)), Port: 1000 + i%50000}
 		}
-		if errors > 0 {
+		quiet := t
+		_ = quiet
+		w.silent = true
+		for i := 0; i < n1; i++ {
+			w.outbound(in, rem(i))
+		}
+		if expire {
+			clock.Advance(life + time.Second)
+			c.Label("expired-prefix")
+		}
+		for i := n1; i < n1+n2; i++ {
+			w.outbound(in, rem(i))
+		}
+		// endpoints of the first phase send again (their mappings are expired or live)
+		for k := 0; k < again; k++ {
+			i := rapid.IntRange(0, n1-1).Draw(t, "old")
+			w.outbound(in, rem(i))
+		}
+		// every mapping the model knows to be live must still admit its remote, to its owner
+		probes := 0
+		for i := n1 + n2 - 1; i >= 0 && probes < 300; i -= 1 + (n1+n2)/300 {
+			mp, live := w.m.Lookup(in, rem(i), clock.Offset())
+			if mp != nil && live == 1 {
+				w.inbound(rem(i), mp.Ext(), "learned")
+				probes++
+			}
+		}
+		if c.Has("outbound/error") {
 			c.Label("translation-errors")
 		}
-		c.Count("mappings_made", int64(len(made)))
-		c.Count("translation_errors", int64(errors))
-		t.Logf("total=%d expireAfter=%d made=%d errors=%d", total, expireAfter, len(made), errors)
+		c.Count("mappings_requested", int64(n1+n2+again))
+		c.Count("inbound_probes", int64(probes))
 	})
 }
